@@ -39,6 +39,7 @@ FINDINGS = {
     "C07-value-update-stale": "an update that changes the value of an indexed record leaves the built value index unsorted until the next insert",
     "C07-value-insert-wrong-comparator": "inserting into an already built non-int64 value index re-sorts with the int64 comparator, which fails: the new record stays appended at the end",
     "C07-first-readers-race": "buildBeacon raises `initialized` before it fills and sorts the slice: the second of two concurrent first readers of an index is answered from the empty slice",
+    "C07-window-bound-wraps": "findTimeRangeBounds converts window bounds with UnixNano(), which wraps outside the years 1677-2262: ToTime = 9999-12-31 becomes negative and the read returns nothing",
     "C07-expire-cleared-refiled": "the expiration branch of SaveFunction re-files a record whose expiry was just cleared: it stays in the built expiration index under key 0",
     "C07-patch-expired-partial-reindex": "PatchExpired hands only part of its selection back to the ascending expiration index: a patched, still expired record loaded from disk drops out of it",
     "C07-value-index-mixed-types": "the single shared value index holds records of every content type: a value read returns records of other types / in the order of whichever type built it",
@@ -229,6 +230,9 @@ def symptom(fid, q, keys, sh, hist):
         return idx == "created" and clean and bool(hist.time_updates["created"])
     if fid == "C07-value-update-stale":
         return idx in VALUE_TYPES and clean and bool(hist.value_updates)
+    if fid == "C07-window-bound-wraps":
+        out = lambda b: b is not None and not (-2**63 <= b <= 2**63 - 1)
+        return idx in TIME and (out(q[4]) or out(q[5])) and clean
     if fid == "C07-expire-cleared-refiled":
         return idx == "expire" and nodup and live and any(sh.recs[k]["expire"] == 0 for k in keys)
     if fid == "C07-patch-expired-partial-reindex":
